@@ -14,11 +14,18 @@ from ..brokermachine import close
 from ..core import product
 from ..env import scratch_dir
 
+# rows decades apart: a file may span a century (offsets from the first bar must not wrap or lose precision)
+WIDE = [datetime.date(1950, 1, 3), datetime.date(1969, 12, 31), datetime.date(2000, 2, 29), datetime.date(2038, 1, 20),
+        datetime.date(2099, 12, 31)]
 WINDOW = [datetime.date(2020, 2, 27), datetime.date(2020, 2, 28), datetime.date(2020, 2, 29),
           datetime.date(2020, 3, 2), datetime.date(2020, 3, 3)]
 TIMES = [(0, 0, 0), (14, 29, 59), (14, 29, 59, 750000), (14, 30, 0), (14, 30, 0, 250000), (14, 30, 1), (20, 59, 59),
          (20, 59, 59, 600000), (21, 0, 0), (21, 0, 0, 400000), (21, 0, 1), (23, 59, 0)]
 ONE = datetime.timedelta(days=1)
+
+
+def _index(d):
+    return WINDOW.index(d) if d in WINDOW else 10 + WIDE.index(d)
 
 
 def cell_values(i):
@@ -30,7 +37,7 @@ def build_rows(dates, pattern):
     """pattern: per row 2 bits (open present, close present)."""
     rows = []
     for i, (d, (po, pc)) in enumerate(zip(dates, pattern)):
-        o, c = cell_values(WINDOW.index(d))
+        o, c = cell_values(_index(d))
         rows.append((d, o if po else None, c if pc else None, (0.5 * c) if pc else None))
     return rows
 
@@ -74,13 +81,15 @@ def same(a, b):
 
 
 def query_times(dates):
-    d = min(dates) - 2 * ONE
-    end = max(dates) + 3 * ONE
+    """every day from 2 days before to 3 days after EACH row (for the 5-day window this is one contiguous range)"""
+    days = set()
+    for r in dates:
+        for k in range(-2, 4):
+            days.add(r + k * ONE)
     out = []
-    while d <= end:
+    for d in sorted(days):
         for hms in TIMES:
             out.append(datetime.datetime(d.year, d.month, d.day, *hms, tzinfo=datetime.timezone.utc))
-        d += ONE
     return out
 
 
@@ -294,6 +303,17 @@ def items(tier):
     return out
 
 
+def wide_items():
+    out = []
+    for k in (2, 3):
+        for dates in itertools.combinations(WIDE, k):
+            for pat in ([(1, 1)] * k, [(1, 1)] * (k - 1) + [(0, 1)]):
+                for adjust in (False, True):
+                    out.append({'dates': [d.isoformat() for d in dates], 'pattern': [list(x) for x in pat],
+                                'order': list(range(k))[::-1], 'adjust': adjust, 'differential': True})
+    return out
+
+
 def two_items():
     out = []
     for second in (1, 2, 3):
@@ -318,6 +338,7 @@ def run(tier, res, is_known):
                         'adjusted open is missing when its scale factor is unknown']
     product(point, its, res, is_known, label='datasets', sample_every=811, chunk=8)
     product(two_source_point, two_items(), res, is_known, label='two sources / two assets')
+    product(point, wide_items(), res, is_known, label='files spanning decades', chunk=2)
     res.transitions = res.extra.get('queries', res.transitions)
 
 
